@@ -115,7 +115,7 @@ def main(c):
         #     in which a fired timer callback is still parked when the channel has been closed, after Close and after
         #     end of input; on the real parser the callback is released last and must find nothing left to do
         mc("fixed_stall", "MC_ParserLife.tla", "MC_ParserLife_fixed_stall.cfg", workers=8)
-        goals = ("GoalLateAfterClose", "GoalLateAfterEOF")
+        goals = ("GoalLateAfterClose", "GoalLateAfterEOF", "GoalExpiredByte")
         for goal in goals:
             dumped(goal, "MC_ParserLife_Gen.tla", "MC_ParserLife_%s.cfg" % goal)
         # 3. random behaviours of both shapes
@@ -157,6 +157,10 @@ def main(c):
             if not ok and os.path.exists(dump):
                 last = json.load(open(dump))["counterexample"]["state"][-1][1]
                 acts = list(last["hist"])
+                if goal == "GoalExpiredByte":
+                    # the run loop handles the character (after its own report of the key press) before the
+                    # parked callback is let go: the callback must then find nothing to do
+                    acts += ["RLock", "RSent"]
                 for k, t in enumerate(last["tm"]):
                     if t == "fired":
                         acts += ["FLock:%d" % (k + 1), "FSet:%d" % (k + 1)]
